@@ -32,6 +32,12 @@ class StatefulMixin:
         if ending == 'return':
             time.sleep(0.15)          # stay alive for a moment so that the parent can look
             return 'done'
+        if ending == 'linger':
+            # report at once, but the process stays around (a non-daemon thread is still running): the worker is
+            # still alive although its final message - state included - is already on its way
+            import threading
+            threading.Thread(target=time.sleep, args=(1.5,)).start()
+            return 'done'
         if ending == 'raise':
             time.sleep(0.15)
             raise ValueError('own')
@@ -97,9 +103,32 @@ def one_case(name, cls, host, init, values, ending, scratch, res):
                 break
             if not alive:
                 break
-            if os.path.exists(flag) and (ending == 'terminate' or (persistent and time.time() - os.path.getmtime(flag) > 0.4)):
+            if os.path.exists(flag) and (ending in ('terminate', 'restart-busy', 'linger') or (persistent and time.time() - os.path.getmtime(flag) > 0.4)):
                 break
             time.sleep(0.002)
+        if ending == 'linger' and not persistent and 'thread' not in name:
+            # a caller that gives up waiting: wait() may already have received the final message - the state it carries
+            # must stay invisible until the worker is dead
+            for _ in range(3):
+                gave_up = not w.wait(0.25)
+                alive = w.is_alive()
+                st = w.user_state
+                alive = alive and w.is_alive()
+                if gave_up and alive and st != init:
+                    viol.append(f'after wait(0.25) gave up, is_alive() is True but user_state already shows {st!r} (initial {init!r})')
+                    break
+        if ending == 'restart-busy':
+            # restart() of a busy worker: wait(timeout) gives up, the worker is terminated gracefully and reports its state -
+            # the next incarnation must start from it
+            want = values[-1] if values else init
+            w.restart(timeout=0.3)
+            if w.user_state != want:
+                viol.append(f'after restart() of a busy worker user_state is {w.user_state!r}, the old incarnation ended with {want!r}')
+            w.enqueue([], 'return', None)
+            w.wait(10)
+            if w.user_state != want:
+                viol.append(f'the incarnation after restart() of a busy worker worked from {w.user_state!r}, not from the synchronised state {want!r}')
+            return viol
         if ending == 'terminate':
             w.terminate(timeout=10)
         elif persistent:
@@ -157,6 +186,10 @@ def main(tier, seed, replay=None):
             for ending in ('return', 'raise', 'terminate'):
                 cases.append((name, rnd.choice(VALUES), [rnd.choice(VALUES) for _ in range(rnd.randint(1, 4))], ending))
             cases.append((name, 7, [], 'return'))
+            if name in ('process', 'remote'):
+                cases.append((name, 'init', ['a', 'final'], 'linger'))
+            if name in ('pprocess', 'premote'):
+                cases.append((name, 0, [1, 2, 3], 'restart-busy'))
         for _ in range(12 if tier == 'quick' else 120):
             cases.append((rnd.choice(list(cl)), rnd.choice(VALUES), [rnd.choice(VALUES) for _ in range(rnd.randint(0, 10))], rnd.choice(['return', 'raise', 'terminate'])))
         for name, init, values, ending in cases:
